@@ -412,9 +412,79 @@ fn takes_receiver(method_ty: &tast::Ty, receiver: &tast::Ty) -> bool {
     let Some(first) = params.first() else {
         return false;
     };
-    first == receiver
-        || (first.try_constr_name().is_some()
-            && first.try_constr_name() == receiver.try_constr_name())
+    // `fn wrap(v: T) -> Box[T]` of `impl[T] Box[T]` takes a value of any type, not a receiver
+    if matches!(first, tast::Ty::TParam { .. }) {
+        return false;
+    }
+    let mut bound = HashMap::new();
+    is_instance_of(first, receiver, &mut bound)
+}
+
+/// `ty` is `pattern` with the pattern's type parameters replaced consistently: the receiver
+/// `Box[int32]` is an instance of `Box[T]`, not of `Box[Vv[T]]`.
+fn is_instance_of<'a>(
+    pattern: &'a tast::Ty,
+    ty: &'a tast::Ty,
+    bound: &mut HashMap<&'a str, &'a tast::Ty>,
+) -> bool {
+    match (pattern, ty) {
+        (tast::Ty::TParam { name }, _) => match bound.get(name.as_str()) {
+            Some(seen) => *seen == ty,
+            None => {
+                bound.insert(name.as_str(), ty);
+                true
+            }
+        },
+        // the receiver's type may still mention inference variables: they stand for anything
+        (_, tast::Ty::TVar(_)) => true,
+        (
+            tast::Ty::TApp { ty: head, args },
+            tast::Ty::TApp {
+                ty: other_head,
+                args: other_args,
+            },
+        ) => {
+            head == other_head
+                && args.len() == other_args.len()
+                && args
+                    .iter()
+                    .zip(other_args.iter())
+                    .all(|(a, b)| is_instance_of(a, b, bound))
+        }
+        (tast::Ty::TVec { elem }, tast::Ty::TVec { elem: other })
+        | (tast::Ty::TRef { elem }, tast::Ty::TRef { elem: other }) => {
+            is_instance_of(elem, other, bound)
+        }
+        (
+            tast::Ty::TArray { len, elem },
+            tast::Ty::TArray {
+                len: other_len,
+                elem: other,
+            },
+        ) => len == other_len && is_instance_of(elem, other, bound),
+        (tast::Ty::TTuple { typs }, tast::Ty::TTuple { typs: others }) => {
+            typs.len() == others.len()
+                && typs
+                    .iter()
+                    .zip(others.iter())
+                    .all(|(a, b)| is_instance_of(a, b, bound))
+        }
+        (
+            tast::Ty::TFunc { params, ret_ty },
+            tast::Ty::TFunc {
+                params: other_params,
+                ret_ty: other_ret,
+            },
+        ) => {
+            params.len() == other_params.len()
+                && params
+                    .iter()
+                    .zip(other_params.iter())
+                    .all(|(a, b)| is_instance_of(a, b, bound))
+                && is_instance_of(ret_ty, other_ret, bound)
+        }
+        _ => pattern == ty,
+    }
 }
 
 fn completions_for_type(genv: &GlobalTypeEnv, ty: &tast::Ty) -> Vec<DotCompletionItem> {
@@ -529,17 +599,22 @@ pub fn colon_colon_completions(
     }?;
 
     let path_node = ancestor_path_from_token(&token)?;
-    let segments = path_node
-        .ident_tokens()
+    // the namespace is what stands before the segment the cursor is in; segments after it
+    // are completed against the item chosen here, not the other way round
+    let all_segments = path_node.ident_tokens().collect::<Vec<_>>();
+    let segments = all_segments
+        .iter()
+        .filter(|tok| tok.text_range().end() <= colon_start)
         .map(|tok| tok.to_string())
         .collect::<Vec<_>>();
+    let more_segments_follow = all_segments
+        .iter()
+        .any(|tok| tok.text_range().start() > offset);
+    let position = path_position(&path_node);
     if segments.is_empty() {
         return None;
     }
-    let namespace = segments[..segments.len().saturating_sub(1)].join("::");
-    if namespace.is_empty() {
-        return None;
-    }
+    let namespace = segments.join("::");
 
     let (_hir_table, _results, genv, _diagnostics) = analyze_for_query(path, &parse_src).ok()?;
 
@@ -568,7 +643,52 @@ pub fn colon_colon_completions(
     let mut items = colon_colon_items_for_namespace(&genv, &namespace);
     items.sort_by(|a, b| a.name.cmp(&b.name));
     items.retain(|item| item.name.starts_with(&prefix));
+    // only what can stand at the cursor: a segment with more segments after it names a type or
+    // a trait; a type position takes types (traits after `dyn`), a pattern variants (or the
+    // enum they belong to)
+    items.retain(|item| {
+        use ColonColonCompletionKind::*;
+        if more_segments_follow {
+            return matches!(item.kind, Type | Trait);
+        }
+        match position {
+            PathPosition::Type => item.kind == Type,
+            PathPosition::DynType => item.kind == Trait,
+            PathPosition::Pattern => matches!(item.kind, Variant | Type),
+            PathPosition::Other => true,
+        }
+    });
     Some(items)
+}
+
+#[derive(Clone, Copy, PartialEq, Eq)]
+enum PathPosition {
+    Type,
+    DynType,
+    Pattern,
+    Other,
+}
+
+/// Where a path stands, judged by the nearest enclosing type, pattern or expression node.
+fn path_position(path: &cst::nodes::Path) -> PathPosition {
+    let mut current = path.syntax().parent();
+    while let Some(node) = current {
+        let kind = node.kind();
+        if kind == MySyntaxKind::TYPE_DYN {
+            return PathPosition::DynType;
+        }
+        if cst::nodes::Type::can_cast(kind) {
+            return PathPosition::Type;
+        }
+        if cst::nodes::Pattern::can_cast(kind) {
+            return PathPosition::Pattern;
+        }
+        if cst::nodes::Expr::can_cast(kind) {
+            return PathPosition::Other;
+        }
+        current = node.parent();
+    }
+    PathPosition::Other
 }
 
 fn type_constructor_name(ty: &tast::Ty) -> Option<&str> {
